@@ -4,12 +4,14 @@ Property theorems only (model and spec: KinModel/Response.lean; helper lemmas: K
 
 Full-strength statement (the goal shape):
     ∀ canon o i, (validateResponse canon o i).err = none ↔ Accept canon o i
-It is proved below as `accept_iff_partial` outside four decidable exclusion classes in which the code
+It is proved below as `accept_iff_partial` outside three decidable exclusion classes in which the code
 really deviates from the property text (each with a kernel-checked witness, replayed on the Go code):
   HdrDecodedNil     a present header whose decoding gives no value is validated as `null`
   HdrNotAsResponse  headers are visited without VisitAsResponse
   EmptyMapStrict    empty responses map under IncludeResponseStatus
-  WriteOnlyNull     a write-only property carrying `null` in the body is not reported
+A fourth class (WriteOnlyNull, finding F-C08-4: a write-only property carrying `null` in the body was not
+reported) was repaired in the repository (commit e80060c); its exclusion is gone, `visit_asrep_iff` holds at
+full strength, and the former witness is kept as the regression theorems `writeOnly_null_rejected*`.
 -/
 import KinModel.Lemmas.C08
 namespace KinModel.Response
@@ -61,17 +63,11 @@ theorem contentGet_spec (c : List (String × α)) (mime : String) :
 /-- The executable oracle computes the declarative specification. -/
 theorem satRepB_spec (w : Bool) (v : J) (s : Sch) : satRepB w v s = true ↔ SatRep w v s := satRepB_iff w v s
 
-/-- Full strength: `visit ⟨true, w⟩ v s = true ↔ SatRep w v s`. It fails when a write-only property carries
-`null` (witness `writeOnly_null_witness`); outside that class (or with the write-only checks switched off) the
-visitor run as a response accepts exactly the values the response-side reading admits: write-only properties
-absent and not required, read-only ones unconstrained. For every schema and value of the fragment, any depth. -/
-theorem visit_asrep_iff_partial (w : Bool) (v : J) (s : Sch) (h : w = true ∨ woNullIn v s = false) :
-    visit ⟨true, w⟩ v s = true ↔ SatRep w v s := by
-  rw [visit_asrep_eq_satRepB w v s h]; exact satRepB_iff w v s
-
-/-- Whatever the response-side reading admits is accepted by the code (no exclusion needed in this direction). -/
-theorem visit_asrep_complete (v : J) (s : Sch) (h : SatRep true v s) : visit ⟨true, true⟩ v s = true :=
-  (visit_asrep_iff_partial true v s (Or.inl rfl)).mpr h
+/-- **Response-side reading, full strength.** The visitor run as a response accepts exactly the values the
+response-side reading admits: write-only properties absent (unless the option switches that check off) and not
+required, read-only ones unconstrained. For every schema and value of the fragment, any depth. -/
+theorem visit_asrep_iff (w : Bool) (v : J) (s : Sch) : visit ⟨true, w⟩ v s = true ↔ SatRep w v s := by
+  rw [visit_asrep_eq_satRepB w v s]; exact satRepB_iff w v s
 
 /-- A value that reaches no write-only declaration is judged the same with and without VisitAsResponse. -/
 theorem visit_plain_eq_asrep_untouched (w : Bool) (v : J) (s : Sch) (h : woTouched v s = false) :
@@ -90,12 +86,12 @@ example : visit ⟨true, true⟩ (.obj (.cons "pw" (.str "x") .nil)) (pwSchema f
 example : SatRep false (.obj (.cons "id" (.num 1) .nil)) (pwSchema false) :=
   (satRepB_iff _ _ _).mp (by decide)
 
-/-- Witness (class WriteOnlyNull): `{"pw": null}` with `pw` write-only and nullable is accepted by the visitor
-although the response-side reading forbids the property. -/
-theorem writeOnly_null_witness :
-    woNullIn (.obj (.cons "pw" .null .nil)) (pwSchema true) = true ∧
-    visit ⟨true, false⟩ (.obj (.cons "pw" .null .nil)) (pwSchema true) = true ∧
-    satRepB false (.obj (.cons "pw" .null .nil)) (pwSchema true) = false := by decide
+/-- Regression (finding F-C08-4, fixed in e80060c): `{"pw": null}` with `pw` write-only and nullable is rejected
+by the visitor, as the response-side reading demands; with the write-only checks off it is accepted. -/
+theorem writeOnly_null_rejected :
+    visit ⟨true, false⟩ (.obj (.cons "pw" .null .nil)) (pwSchema true) = false ∧
+    satRepB false (.obj (.cons "pw" .null .nil)) (pwSchema true) = false ∧
+    visit ⟨true, true⟩ (.obj (.cons "pw" .null .nil)) (pwSchema true) = true := by decide
 
 /-! ### ValidateResponse -/
 
@@ -143,7 +139,7 @@ theorem acceptB_iff (canon : String → String) (o : Opts) (i : Input) :
     · cases o.excludeBody <;> simp
 
 /-- **C08 main theorem.** Full strength: `(validateResponse canon o i).err = none ↔ Accept canon o i` for every
-response map, status, header set, content type, body, decoding outcome and option set. Proved outside the four
+response map, status, header set, content type, body, decoding outcome and option set. Proved outside the three
 exclusion classes (each has a witness below): the response passes exactly when it is skipped (HEAD, 301/304/307/308),
 or no entry is selected and strictness is off, or — against the entry selected by exact code, class pattern,
 default — every declared header other than Content-Type is present-and-valid or absent-and-optional, and
@@ -153,7 +149,7 @@ theorem accept_iff_partial (canon : String → String) (o : Opts) (i : Input)
     (hx : Excluded canon o i = false) :
     (validateResponse canon o i).err = none ↔ Accept canon o i := by
   simp only [Excluded, Bool.or_eq_false_iff] at hx
-  obtain ⟨⟨⟨hx1, hx2⟩, hx3⟩, hx4⟩ := hx
+  obtain ⟨⟨hx1, hx2⟩, hx3⟩ := hx
   by_cases hm : i.method = "HEAD"
   · simp [validateResponse, Accept, hm, Skipped]
   · cases hs : skipStatus i.status with
@@ -222,13 +218,7 @@ theorem accept_iff_partial (canon : String → String) (o : Opts) (i : Input)
               · intro _; exact ⟨hok, fun h => by simp at h⟩
               · intro _; exact hc
             | false =>
-              have hb := checkBody_iff o i r heb (by
-                cases hw : o.woOff with
-                | true => exact Or.inl rfl
-                | false =>
-                  right
-                  intro mt s v h1 h2 h3
-                  simpa [WriteOnlyNull, hw, hsel, h1, h2, h3] using hx4)
+              have hb := checkBody_iff o i r heb
               constructor
               · intro h; exact ⟨hok, fun _ => hb.mp h⟩
               · intro h; exact hb.mpr (h.2 rfl)
@@ -314,11 +304,12 @@ theorem witness_EmptyMapStrict :
       acceptB id { strict := true } i = false := by
   decide
 
-/-- Body `{"pw": null}` against a schema whose nullable property `pw` is write-only: accepted. -/
-theorem witness_WriteOnlyNull :
+/-- Regression (F-C08-4, fixed): body `{"pw": null}` against a schema whose nullable property `pw` is write-only
+is rejected by the model and by the spec, and lies in no exclusion class. -/
+theorem writeOnly_null_rejected_in_body :
     let i := inp [("200", ⟨[], [("application/json", ⟨some (pwSchema true)⟩)]⟩)] [("Content-Type", "application/json")]
               (.val (.obj (.cons "pw" .null .nil)))
-    WriteOnlyNull {} i = true ∧ (validateResponse id {} i).err = none ∧ acceptB id {} i = false := by
+    Excluded id {} i = false ∧ (validateResponse id {} i).err = some .bodySchema ∧ acceptB id {} i = false := by
   decide
 
 /-! ### Non-vacuity: inputs outside every exclusion class on which both directions are exercised -/
